@@ -314,13 +314,18 @@ def step (st : St) : List String → St × String
     match ofHex hx with
     | some d => (st, showOutcome (process (mkServer st) {} d))
     | none => (st, "bad-op")
-  | ["overflow", _hx] => (st, showOutcome (.respond overflowWire true) ++ s!" queued={Gen.HttpRespond.poolQueueCap}")
-  | ["overflow", _hx, bits] =>
+  | ["overflow", hx] =>
+    match ofHex hx with
+    | some d => (st, showOutcome (.respond (overflowWire (isHeadRaw d)) true) ++ s!" queued={Gen.HttpRespond.poolQueueCap}")
+    | none => (st, "bad-op")
+  | ["overflow", hx, bits] =>
     -- `sendErrorResponse` in an environment: bits = enqueueOk, _shutdown, transport present
     match bits.toList.map (fun c => c == '1') with
     | [enq, sh, tr] =>
       let env : Env := { upAtSend := tr && !sh, enqueueOk := enq }
-      (st, showOutcome (outcomeOf env (overflowCalls env, false)) ++ s!" queued={Gen.HttpRespond.poolQueueCap}")
+      match ofHex hx with
+      | some d => (st, showOutcome (outcomeOf env (overflowCalls env (isHeadRaw d), false)) ++ s!" queued={Gen.HttpRespond.poolQueueCap}")
+      | none => (st, "bad-op")
     | _ => (st, "bad-op")
   | ["frame", heads, hx] =>
     match ofHex hx with
